@@ -6,13 +6,13 @@ L1 (make_allfunc): the real closure returned by supervisor.rpcinterface.make_all
 callbacks over dummy (group, process) pairs, invocation by invocation against the Lean model Model/AllFunc.lean, plus monitors.
 """
 import itertools, re
-from props import l2common
+from props import l2common, c13_execv
 import l2
 
 ID = 'C13'
 LEAN_PROPS = 'SupervisorModel.Props.C13'
 DRIVER = 'drv_c13'
-GENERATED = ['Proc', 'Sup', 'AllFunc']
+GENERATED = ['Proc', 'Sup', 'AllFunc', 'Execv']
 TRUSTED = l2common.TRUSTED + [
     "Model/AllFunc.lean: the environment of make_allfunc's closure is an input (for each list position: the predicate's answer when "
     "tested, what func does when called -- raises RPCError / returns a function / returns a value --, what the k-th poll of its callback "
@@ -350,6 +350,9 @@ def run(ctx):
     l2common.run_all(ctx, dense_rpc(ctx, True), mons, correspond=False)
     # after the L2 populations, so that they draw the same scenarios from ctx.rng as before the make_allfunc cases were added
     run_allfunc_cases(ctx, allfunc_population(ctx))
+    # the command-file clause (NO_FILE / NOT_EXECUTABLE): real check_execv_args / get_execv_args / startProcess / spawn over a virtual
+    # file system, against Model/Execv.lean
+    c13_execv.run(ctx)
 
 
 def replay(ctx, data):
@@ -361,6 +364,9 @@ def replay(ctx, data):
         lines, facts = run_allfunc(procs, af['kwargs'], af.get('falsy', False))
         mon_allfunc(ctx, procs, af['kwargs'], facts, dict(allfunc=af))
         ctx.correspond('allfunc', [(allfunc_case_line(procs), ['invoke'] * len(lines))], [lines])
+        return
+    if isinstance(data.get('input'), dict) and ('execv' in data['input'] or 'execv_check' in data['input']):
+        c13_execv.replay(ctx, data)
         return
     l2common.replay(ctx, data, [l2.mon_c13, l2.mon_c13_groups, l2.mon_c02, l2.mon_c06])
 
